@@ -2,6 +2,7 @@
    The tables [ctor_table], [err_table], [close_lo], [close_hi] are regenerated from the repository
    source on every run (Generated/StatusTables.v); these theorems are re-checked against them. *)
 From SV Require Import Base.Bytes Model.Tables Spec.ErrorClasses Generated.StatusTables Proofs.TablesP.
+From SV Require Import Base.IO Model.Headers Model.Response Spec.RespParse Model.Conn Model.ConnInst Proofs.ConnInstP.
 
 (* C20.0  the translator understood every constructor, variant and arm it met *)
 Theorem c20_translation_clean : translation_problems = O.
@@ -49,6 +50,22 @@ Theorem c20_fivexx_close :
   forall code, 500 <= code <= 599 -> in_close_range close_lo close_hi code = true.
 Proof. exact fivexx_close. Qed.
 
+(* C20.5b  ... and, composing the connection machine (C05), the serialiser (C06) and that rule: for
+   the concrete instance, every 5xx response that is sent through a connection parses back with
+   the field `connection: close` among its header fields, and the write side is shut afterwards. *)
+Theorem c20_fivexx_marked_close_on_wire :
+  forall url_parse reason ct_text (c : conn) (r : response),
+    c_ws c = WS_Response -> 500 <= r_code r <= 599 ->
+    head_ok reason ct_text r = true -> collides r = false ->
+    let '(res, c') := cstep_inst url_parse reason ct_text true c (OWrite r) in
+    res = CR_Ok ->
+    exists delta,
+      c_wire c' = c_wire c ++ delta /\
+      parse_response delta = Some (r_code r, all_fields ct_text r true, body_payload (r_body r), []) /\
+      In (s_connection, s_close) (all_fields ct_text r true) /\
+      c_ws c' = WS_Shutdown /\ c_wshut c' = true.
+Proof. exact fivexx_marked_close_on_wire. Qed.
+
 (* C20.6  the oracles evaluated on the implementation's observations hold of the tables *)
 Theorem c20_oracle_err_sound :
   forall e cls kd tx,
@@ -80,5 +97,6 @@ Print Assumptions c20_client_errors_specific.
 Print Assumptions c20_server_errors_opaque.
 Print Assumptions c20_disconnected_drops.
 Print Assumptions c20_fivexx_close.
+Print Assumptions c20_fivexx_marked_close_on_wire.
 Print Assumptions c20_oracle_err_sound.
 Print Assumptions c20_oracle_ctor_sound.
